@@ -5,10 +5,22 @@
 import LspVerif.Driver.Conv
 import LspVerif.Core.Rep
 import LspVerif.Core.Norm
+import LspVerif.Spec.Link
 namespace LspVerif.Driver
 open LspVerif
 
-def repStep (E : Env) (bad : List PyTy) (line : String) : String :=
+/-- `Json.wfF` with enough fuel, and closed metamodel validity of the value for the root (Spec/Link.lean): the hypothesis of the
+    link theorem evaluated on the generated value -/
+def validTag (M : Option Model) (E : Env) (ty : String) (j : Json) : String :=
+  match M with
+  | Option.none => ""
+  | some M =>
+    " wf:" ++ toString (Json.wfF 400 j) ++ " valid:" ++
+      (match validRootC M E (Name.ofString ty) j with
+       | some b => toString b
+       | Option.none => "na")
+
+def repStep (M : Option Model) (E : Env) (bad : List PyTy) (line : String) : String :=
   let line := line.trimAscii.toString
   match line.splitOn " " with
   | ty :: rest =>
@@ -16,6 +28,7 @@ def repStep (E : Env) (bad : List PyTy) (line : String) : String :=
     match resolveType E ty, Lean.Json.parse txt with
     | some t, .ok lj =>
       let j := ofLeanJson lj
+      (fun core => core ++ validTag M E ty j)
       (match structTy E fuel t j with
        | .ok v =>
          if rep E bad fuel t v j then
@@ -31,12 +44,12 @@ def repStep (E : Env) (bad : List PyTy) (line : String) : String :=
     | _, .error _ => "bad-json"
   | _ => "bad-op"
 
-partial def repLoop (E : Env) (bad : List PyTy) (h : IO.FS.Stream) : IO Unit := do
+partial def repLoop (M : Option Model) (E : Env) (bad : List PyTy) (h : IO.FS.Stream) : IO Unit := do
   let line ← h.getLine
   if line.isEmpty then return ()
-  IO.println (repStep E bad line)
-  repLoop E bad h
+  IO.println (repStep M E bad line)
+  repLoop M E bad h
 
-def repMain (E : Env) (bad : List PyTy) : IO Unit := do repLoop E bad (← IO.getStdin)
+def repMain (E : Env) (bad : List PyTy) (M : Option Model := Option.none) : IO Unit := do repLoop M E bad (← IO.getStdin)
 
 end LspVerif.Driver
